@@ -135,11 +135,14 @@ class C17(runner.Check):
                    "_covariance on 3 symbolic points (free space) and whole-cell shifts of the periodic variant.")
     stubs = ["np.log / sin / cos / arctan2 -> uninterpreted functions (congruence only)", "scipy logsumexp -> formal multiset of exponent terms (associative / commutative)",
              "tqdm -> plain iteration", "sklearn pairwise helpers as in C15"]
-    assumptions = ["exact real arithmetic", "exp / log / sin / cos uninterpreted: only the STRUCTURE of the mixture (which Gaussians enter with which arguments and weights) is decided",
+    assumptions = ["exact real arithmetic", "invariance configurations: the query shares no coordinate with a descriptor and every descriptor has a unique nearest grid point "
+                   "(with an exact distance tie the argmin follows the grid order, so a permutation changes the assignment)", "exp / log / sin / cos uninterpreted: only the STRUCTURE of the mixture (which Gaussians enter with which arguments and weights) is decided",
                    "fitted state constructed directly (SparseKDE.fit's bandwidth estimation is not executed)"]
     outside = ["SparseKDE.fit beyond the assignment: localisation tuners, effective dimension, oas shrinkage, Silverman factor, positive definiteness of the bandwidths "
                "(data-dependent loops over exp, eigenvalues + log, non-integer powers: no installed solver reasons about these)",
-               "numeric value of score_samples, translation / permutation invariance of the final log-density", "refit histories of SparseKDE (need fit)"]
+               "numeric value of score_samples, translation / permutation invariance of the final log-density", "refit histories through the real bandwidth estimation",
+               "whole-cell-shift invariance of the log-density (the periodic invariance configuration exists in the harness but did not finish in 20 min: the minimum-image forks of every "
+               "metric call multiply; shift invariance of the periodic metrics themselves is decided in C15)"]
 
     def configs(self, tier):
         cf = []
@@ -155,6 +158,7 @@ class C17(runner.Check):
         add("mixture", dim=2, nd=3, query="equals-descriptor", cost=8)
         add("mixture", dim=2, nd=3, query="shares-coordinate", cost=8)
         add("refit", dim=1, nd=2, cost=10)
+        add("invariance", dim=2, nd=3, cost=8)
         add("covariance", dim=2, cost=3)
         add("covariance-periodic", dim=1, cost=3)
         if tier == "thorough":
@@ -212,6 +216,8 @@ class C17(runner.Check):
             return self.h_kde(c, cfg, P)
         if mode == "refit":
             return self.h_refit(c, cfg, P)
+        if mode == "invariance":
+            return self.h_inv(c, cfg, P)
         return self.h_cov(c, cfg, P)
 
     def h_kde(self, c, cfg, P):
@@ -326,6 +332,78 @@ class C17(runner.Check):
                     terms.append((nk[j] + maha(D[n_], xq, H[j])) * Fr(-1, 2) + c.uf("log", [S_(wn[n_])]) - logW)
         return terms
 
+    @staticmethod
+    def _set_state(kde, G, H, nk):
+        _, neigh, labels, gw = kde._assign_descriptors_to_grids(G)
+        kde._grids, kde._grid_neighbour, kde._sample_labels_, kde._sample_weights = G, neigh, [int(l) for l in labels], gw
+        kde.bandwidth_ = "constructed-directly"
+        kde._bandwidth_inv_ = arrays.array(list(H), dtype=object) if any(is_sym(h) for h in H) else np.array(H)
+        kde._normkernels_ = arrays.array(list(nk), dtype=object) if any(isinstance(x, SReal) for x in nk) else np.array(nk)
+        kde.fitted_ = True
+        return [int(l) for l in labels]
+
+    def h_inv(self, c, cfg, P):
+        """structure of the log-density at a point that is not a descriptor is unchanged by translating all data (free space) and by
+        permuting descriptors (with their weights) and grid points (with their bandwidths) consistently"""
+        from skmatter.neighbors import SparseKDE
+
+        kde, D, w, G = self._kde(c, cfg)
+        nd, dim = D.shape
+        cell = cfg.get("cell")
+        mp = {"cell_length": arrays.exact([Fr(cell)] * dim)} if cell else None
+        H = []
+        for j in range(2):
+            if dim == 2:
+                a, b, d_ = c.sym(f"h{j}_00", positive=True), c.sym(f"h{j}_01"), c.sym(f"h{j}_11", positive=True)
+                H.append(arrays.array([[a, b], [b, d_]], dtype=object))
+            else:
+                H.append(arrays.array([[c.sym(f"h{j}_00", positive=True)]], dtype=object))
+        nk = [c.sym(f"nk_{j}") for j in range(2)]
+        q = arrays.symbols("q", (1, dim))
+        if cell:
+            for k in range(dim):
+                c.assume(q[0, k] * 2 <= Fr(cell))
+                c.assume(q[0, k] * 2 >= -Fr(cell))
+        for n_ in range(nd):  # the invariance clause is about points that are not descriptors: no coordinate coincidences
+            for k in range(dim):
+                c.assume(q[0, k] != D[n_, k])
+        Dm = kde.metric(D, G)
+        for n_ in range(nd):  # unique nearest grid point: with an exact tie the assignment (argmin) follows the grid order
+            c.assume(Dm[n_, 0] != Dm[n_, 1])
+        labels = self._set_state(kde, G, H, nk)
+        base = kde.score_samples(q)[0]
+        variants = []
+        if not cell:
+            t = arrays.symbols("t", dim)
+            kt = SparseKDE(D + t, w.copy())
+            self._set_state(kt, G + t, H, nk)
+            variants.append(("translation(free space)", kt.score_samples(q + t)[0]))
+            pd, pg = [2, 0, 1][:nd], [1, 0]
+            kp = SparseKDE(D[pd].copy(), w[pd].copy())
+            self._set_state(kp, G[pg].copy(), [H[j] for j in pg], [nk[j] for j in pg])
+            variants.append(("consistent-permutation-of-descriptors-and-grid-points", kp.score_samples(q)[0]))
+        else:
+            L = Fr(cell)
+            sh = cfg.get("shift", "query")
+            if sh == "query":
+                variants.append(("whole-cell-shift-of-the-query", kde.score_samples(q + L)[0]))
+            elif sh == "descriptor":
+                D2 = D.copy()
+                D2[0, 0] = D2[0, 0] - L
+                k2 = SparseKDE(D2, w.copy(), metric_params=mp)
+                self._set_state(k2, G, H, nk)
+                variants.append(("whole-cell-shift-of-a-descriptor", k2.score_samples(q)[0]))
+            else:
+                G2 = G.copy()
+                G2[1, 0] = G2[1, 0] + L
+                k3 = SparseKDE(D, w.copy(), metric_params=mp)
+                self._set_state(k3, G2, H, nk)
+                variants.append(("whole-cell-shift-of-a-grid-point", k3.score_samples(q)[0]))
+        for name, other in variants:
+            ok = isinstance(base, LogSum) and isinstance(other, LogSum) and same_multiset(base.terms, other.terms) or (not isinstance(base, LogSum) and not isinstance(other, LogSum))
+            P.require(Formula.const(bool(ok)), "log-density(structure)-unchanged-by-" + name)
+        return {"labels": labels}
+
     def h_refit(self, c, cfg, P):
         """fit -> score_samples (fills the lazily cached inverse bandwidths / normalisations) -> fit on another grid -> score_samples.
         The bandwidth estimation is a nondeterministic stub: it sets bandwidth_ to fresh symbolic positive definite matrices."""
@@ -436,6 +514,55 @@ class C17(runner.Check):
 
         mode = cfg["mode"]
         viol = []
+        if mode == "invariance":
+            from skmatter.neighbors import SparseKDE
+
+            kde, D, w, G = self._kde(None, cfg, sym=False, values=values)
+            nd, dim = D.shape
+            cell = cfg.get("cell")
+            mp = {"cell_length": np.array([float(Fr(cell))] * dim)} if cell else None
+            H = []
+            for j in range(2):
+                a, b, d_ = float(values.get(f"h{j}_00", 1.0 + j)), float(values.get(f"h{j}_01", 0.2)), float(values.get(f"h{j}_11", 1.5))
+                if a * d_ - b * b <= 0:
+                    d_ = b * b / a + 1.0
+                H.append(np.array([[a, b], [b, d_]]) if dim == 2 else np.array([[a]]))
+            nk = [float(values.get(f"nk_{j}", 0.3 * j)) for j in range(2)]
+            q = np.array([[float(values.get(f"q_0_{k}", 0.1 * (k + 1))) for k in range(dim)]])
+            variants = []
+            with np.errstate(all="ignore"):
+                labels = self._set_state(kde, G, H, nk)
+                base = kde.score_samples(q)[0]
+                if not cell:
+                    t = np.array([float(values.get(f"t_{k}", 1.5 - k)) for k in range(dim)])
+                    kt = SparseKDE(D + t, w.copy())
+                    self._set_state(kt, G + t, H, nk)
+                    variants.append(("translation(free space)", kt.score_samples(q + t)[0]))
+                    pd, pg = [2, 0, 1][:nd], [1, 0]
+                    kp = SparseKDE(D[pd].copy(), w[pd].copy())
+                    self._set_state(kp, G[pg].copy(), [H[j] for j in pg], [nk[j] for j in pg])
+                    variants.append(("consistent-permutation-of-descriptors-and-grid-points", kp.score_samples(q)[0]))
+                else:
+                    L = float(Fr(cell))
+                    sh = cfg.get("shift", "query")
+                    if sh == "query":
+                        variants.append(("whole-cell-shift-of-the-query", kde.score_samples(q + L)[0]))
+                    elif sh == "descriptor":
+                        D2 = D.copy()
+                        D2[0, 0] -= L
+                        k2 = SparseKDE(D2, w.copy(), metric_params=mp)
+                        self._set_state(k2, G, H, nk)
+                        variants.append(("whole-cell-shift-of-a-descriptor", k2.score_samples(q)[0]))
+                    else:
+                        G2 = G.copy()
+                        G2[1, 0] += L
+                        k3 = SparseKDE(D, w.copy(), metric_params=mp)
+                        self._set_state(k3, G2, H, nk)
+                        variants.append(("whole-cell-shift-of-a-grid-point", k3.score_samples(q)[0]))
+            for name, other in variants:
+                if not (np.isneginf(base) and np.isneginf(other)) and not abs(base - other) <= 1e-7 * max(1.0, abs(base)):
+                    viol.append(("log-density(structure)-unchanged-by-" + name, {"base": float(base), "other": float(other)}))
+            return {"labels": labels}, viol
         if mode == "refit":
             import skmatter.neighbors._sparsekde as M
 
